@@ -220,6 +220,8 @@ def features(d1):
             f.add("global")
         elif w[0] == "lref":
             f.add("lref")
+            if l.split()[3] == "0":
+                f.add("lref0")
         elif w[0] == "data" and w[2] == "11":
             f.add("data_p")
         elif w[0] == "insn" and int(w[1]) in PROP_CODES:
@@ -239,7 +241,8 @@ def classify(case, hr, dr_read, dr_alt):
             for flag, feat, sig in (("c", "props", "C11:property-insns-rejected"),
                                     ("p", "data_p", "C11:data-type-p"),
                                     ("g", "global", "C11:global-hard-reg-var"),
-                                    ("e", "trailing", "C11:trailing-label")):
+                                    ("e", "trailing", "C11:trailing-label"),
+                                    ("z", "lref0", "C11:lref-base-label-0")):
                 r = dr_alt.get(flag)
                 if feat in feats and r is not None and r.get("lines") == d1:
                     return sig
@@ -429,9 +432,9 @@ def process(cases, tag, exe=None, timeout=600):
             n += 1
             bad = ("readerr" in hr) or (hr["D2"] != hr["D1"])
             if bad:
-                for fl in ("g", "c", "p", "e"):
+                for fl in ("g", "c", "p", "e", "z"):
                     cmds.append(("readx", fl, hr["RAW"]))
-                n += 4
+                n += 5
             else:
                 cmds.append(("ctr", hr["RAW"]))
                 n += 1
@@ -465,8 +468,8 @@ def process(cases, tag, exe=None, timeout=600):
             drw = dres[k]
             if n >= 2:
                 drr = dres[k + 1]
-            if n >= 6:
-                dalt = {"g": dres[k + 2], "c": dres[k + 3], "p": dres[k + 4], "e": dres[k + 5]}
+            if n >= 7:
+                dalt = {"g": dres[k + 2], "c": dres[k + 3], "p": dres[k + 4], "e": dres[k + 5], "z": dres[k + 6]}
             elif n == 3:
                 hr["model_ctr"] = dres[k + 2]
         c.hr, c.drw = hr, drw
@@ -659,6 +662,82 @@ def incompressible_cases(rng):
             tabs = [(rng.choice(["u64", "u8"]), rng.choice([100, 227, 228, 600, 2047, 9000])) for _ in range(rng.below(4))]
             out.append(Case("incompr-rnd-%d" % i, module(b"r", rng.below(60), strs, tabs), kind="incompr"))
         out.append(Case("incompr-buf2", module(b"b", 0, [524288, 262143], [("u64", 60000)]), kind="incompr"))
+    return out
+
+
+def int_module(g, rng, nfuncs, with_lref=True):
+    """integer-only module (nothing that link-time simplification turns into `.lc` data items):
+    functions with forward branches and a backward counted loop, lref items over their labels,
+    among them `lref later, first` whose base is the first label of the module"""
+    C = T.code
+    L = ["module " + x(g.ident(False))]
+    calls = []
+    for _ in range(nfuncs):
+        fn, a = g.ident(False), g.ident(False)
+        regs = [g.ident(False) for _ in range(3)]
+        L.append("func %s 0 1 6 1 6 %s 0" % (x(fn), x(a)))
+        L += ["local 6 %s" % x(r) for r in regs]
+        L += ["insn %d 2 r:%s i:%d" % (C["MOV"], x(r), rng.below(50)) for r in regs]
+        nl = 2 + rng.below(4)
+        L.append("label 1")                                          # loop head = first label
+        L.append("insn %d 3 r:%s r:%s i:1" % (C["ADD"], x(regs[0]), x(regs[0])))
+        for k in range(2, nl + 1):
+            op = rng.choice(["ADD", "SUB", "XOR", "MUL", "AND"])
+            L.append("insn %d 3 r:%s r:%s r:%s" % (C[op], x(rng.choice(regs)), x(rng.choice(regs)), x(a)))
+            L.append("insn %d 3 l:%d r:%s i:%d" % (C[rng.choice(["BLT", "BGT", "BEQ", "BNE"])], k, x(rng.choice(regs)),
+                                                   rng.below(100)))
+            L.append("insn %d 3 r:%s r:%s i:%d" % (C["ADD"], x(regs[1]), x(regs[1]), g.u64() & 0xFFFF))
+            L.append("label %d" % k)
+        L.append("insn %d 3 l:1 r:%s i:%d" % (C["BLT"], x(regs[0]), 60 + rng.below(20)))
+        L.append("insn %d 3 r:%s r:%s r:%s" % (C["ADD"], x(regs[0]), x(regs[1]), x(regs[2])))
+        L += ["insn %d 1 r:%s" % (C["RET"], x(regs[0])), "endfunc"]
+        if with_lref:
+            L.append("lref %s %d 1 %d" % (x(g.ident(False)), nl, rng.below(16)))       # base = first label
+            L.append("lref - %d %d 0" % (1 + rng.below(nl), 1 + rng.below(nl)))
+            L.append("lref - 1 - 8")
+        calls += ["call %s 1 i:%d" % (x(fn), rng.below(40)) for _ in range(2)]
+    L.append("endmodule")
+    return L, calls
+
+
+def history_cases(rng, n):
+    """modules that do not come straight from one context:
+    merge    = every module built and written in a context of its own (labels numbered from 1 in each),
+               all binaries read into one context, which is then written / read / compared;
+    postlink = modules loaded and linked (labels renumbered from 0 per module) before they are written"""
+    g = c11_gen.Gen(rng, T, hard_regs={"i": [b"rbx", b"r12", b"r13"], "d": []})
+    out = []
+    for i in range(n):
+        k = i % 4
+        if k == 0:
+            lines, calls = [], []
+            for _ in range(2 + rng.below(3)):
+                l, c = int_module(g, rng, 1 + rng.below(3))
+                lines += l
+                calls += c
+            out.append(Case("hist-merge-int-%d" % i, lines, flags=["merge", "exec"], calls=calls, kind="history"))
+        elif k == 1:
+            lines, calls = [], []
+            for _ in range(2 + rng.below(2)):
+                l, c = g.gen_exec_case(1 + rng.below(3), rng.choice([10, 40]))
+                lines += l
+                calls += c
+            out.append(Case("hist-merge-exec-%d" % i, lines, flags=["merge", "exec"], calls=calls, kind="history"))
+        elif k == 2:
+            feats = {"lref": True, "expr": True, "globals": not CFG["globalDoubleRead"], "loadable": True,
+                     "props": CFG["codeLimit"] > max(PROP_CODES or [0]), "data_p": CFG["dataPtr"]}
+            lines = []
+            for _ in range(2 + rng.below(2)):
+                lines += g.gen_module(rng.choice([3, 8]), rng.choice([10, 40]), feats)
+            fl = ["merge", "load"] + (["labelbase=%d" % rng.choice([250, 65530])] if rng.chance(1, 3) else [])
+            out.append(Case("hist-merge-gen-%d" % i, lines, flags=fl, kind="history"))
+        else:
+            lines, calls = [], []
+            for _ in range(1 + rng.below(3)):
+                l, c = int_module(g, rng, 1 + rng.below(3))
+                lines += l
+                calls += c
+            out.append(Case("hist-postlink-%d" % i, lines, flags=["postlink", "exec"], calls=calls, kind="history"))
     return out
 
 
@@ -962,6 +1041,7 @@ try:
                     cases.append(c)
         stats["corpus_replayed"] = len(cases)
         cases += defect_probes() + unit_probes() + incompressible_cases(ck.rng)
+        cases += history_cases(ck.rng, 120 if THOROUGH else 32)
         cases += gen_cases(900 if THOROUGH else 320, ck.rng)
         cases += text_corpus(ck.rng)
         if THOROUGH:
@@ -1001,7 +1081,7 @@ ck.cov["distinct_nontrivial"] = stats["nontrivial"]
 ck.cov["rule"] = ("case = set of modules built through the MIR API from a random description (generator seeded by "
                   "VERIF_SEED; vocabulary: every item kind, every insn_descs row with operands chosen by its op_modes, "
                   "calls/switch/ret/va_*/overflow branches, all memory shapes with aliases, non-finite floats, strings with "
-                  "NULs), plus modules with incompressible stretches (random strings / u64 / u8 tables around 2047, 2^16, 2^18 bytes), plus mir-tests/*.mir and c2m -S output of sampled c-tests, plus fixed unit/defect probes; "
+                  "NULs), plus histories (modules written by separate contexts merged into one and re-written; modules written after MIR_link), plus modules with incompressible stretches (random strings / u64 / u8 tables around 2047, 2^16, 2^18 bytes), plus mir-tests/*.mir and c2m -S output of sampled c-tests, plus fixed unit/defect probes; "
                   "non-trivial = builds, has more than an empty module and its raw stream is distinct from all others")
 ck.cov["distribution"] = {"kinds": stats["kinds"], "item_lines": stats["item_kinds"],
                           "distinct_opcodes": len(stats["opcodes"]), "raw_bytes_total": stats["bytes_total"],
@@ -1013,7 +1093,7 @@ ck.cov["distribution"] = {"kinds": stats["kinds"], "item_lines": stats["item_kin
                           "known_finding_hits": stats["known"], "source_cfg": CFG,
                           "source_cfg_equals_Cfg_today": CFG == {"unportable": [181, 185, 186], "globalDoubleRead": True,
                                                                  "lrefOrphan": True, "dataPtr": False, "codeLimit": 180,
-                                                                 "endfuncLabels": False},
+                                                                 "endfuncLabels": False, "lrefZeroIsNone": False},
                           "temp_counters_compared": stats.get("counters_checked", 0),
                           "temp_counters_nonzero": stats.get("counters_nonzero", 0),
                           "label_operands_identity_checked": stats.get("label_ops_checked", 0),
